@@ -78,7 +78,7 @@ func runC04(c *Ctx) {
 		// one-shot
 		cn := mon.NewCanary(data, 16)
 		var got []byte
-		if pi := mon.Guard(func() { got = sm3.Sm3Sum(cn.Slice()) }); pi != nil {
+		if pi := mon.Guard(func() { got = keep("sm3.Sm3Sum", sm3.Sm3Sum(cn.Slice())) }); pi != nil {
 			rep.Violation("C04/Sm3Sum/panic/"+pi.Func, pi.Value, map[string]interface{}{"len": n, "data": mon.Hex(data)})
 		} else if !bytes.Equal(got, want) {
 			rep.Violation("C04/Sm3Sum/digest-mismatch", fmt.Sprintf("len=%d got %x want %x", n, got, want), map[string]interface{}{"len": n, "data": mon.Hex(data)})
@@ -218,7 +218,7 @@ func runC04(c *Ctx) {
 				want := append(append([]byte{}, prefix...), ref.SM3(model)...)
 				var got []byte
 				if prefix == nil {
-					got = h.Sum(nil)
+					got = keep("sm3.Sum(nil)", h.Sum(nil))
 				} else {
 					cn := mon.NewCanary(prefix, spare)
 					got = h.Sum(cn.Slice())
